@@ -26,9 +26,9 @@ def gen_cases(chk):
 def token_compositions(chk, stats):
     """Every composition of n with every choice of boundary kind, token components, compared with the uninterrupted twin."""
     rng = chk.rng
-    nmax = 4 if chk.tier == "quick" else 6
+    nmax = 4 if chk.tier == "quick" else 5
     count = 0
-    for lineup in range(3 if chk.tier == "quick" else 8):
+    for lineup in range(3 if chk.tier == "quick" else 6):
         base = cc.gen_case(rng, 0, max_ops=1, max_samplers=4, prec_prob=10**9)
         base["cfg"].update(prec=None, saving=False)
         for n in range(2, nmax + 1):
@@ -57,7 +57,7 @@ def real_compositions(chk, stats):
     quick = chk.tier == "quick"
     kinds_pool = rl.CHEAP if quick else rl.ALL9
     count = 0
-    nlineups = 3 if quick else 12
+    nlineups = 3 if quick else 8
     for li in range(nlineups):
         k = rng.randint(2, 4)
         kinds = [(rng.choice(kinds_pool), rng.randint(1, 3)) for _ in range(k)]
@@ -93,6 +93,35 @@ def real_compositions(chk, stats):
     return count
 
 
+def class_cut_sweep(chk, stats):
+    """Which sampler is active at the cut matters (cursors, swarm state, surrogate seeds): for every built-in class X, the
+    line-up [uniform, X] is cut by checkpoint+restore after every batch and compared with the uninterrupted twin."""
+    rng = chk.rng
+    count = 0
+    n = 6 if chk.tier == "quick" else 8
+    reps = {"pso": 4, "cors": 2, "bestbatch": 2}       # samplers that carry state between calls get several seeds
+    for kind in [k for k in rl.ALL9 for _ in range(reps.get(k, 1) * (1 if chk.tier == "quick" else 2))]:
+        # bounds close to the unit cube, so that unit-cube state kept by a sampler (swarm positions, sequence points) is
+        # not masked by clipping
+        spec = {"kinds": [("uniform", 3), (kind, 3)], "nparams": 2, "E": 1, "seed": rng.below(2**31), "loss": "minkowski", "rl": False,
+                "bounds": [[0.0, 0.1], [1.0, 1.1]]}
+        twin = rl.run_segments(spec, [n], [], folder=None)
+        folder = rl.scratch(f"c05_cut_{kind}")
+        for cut in range(1, n):
+            shutil.rmtree(folder, ignore_errors=True)
+            folder.mkdir(parents=True)
+            h = rl.run_segments(spec, [cut, n - cut], ["restore"], folder=str(folder))
+            count += 1
+            stats[f"cut_sweep:{kind}"] += 1
+            d = rl.diff(twin, h)
+            if d:
+                chk.violation({"kind": "oracle", "clause": "real-resume-differs", "boundary": "restore", "active": kind},
+                              {"failed": "oracle:resume", "detail": f"line-up [uniform, {kind}], restore after batch {cut} of {n}: differs in {d}",
+                               "case": {"spec": spec, "segments": [cut, n - cut], "boundaries": ["restore"]}})
+        shutil.rmtree(folder, ignore_errors=True)
+    return count
+
+
 def run(chk, replay=None):
     from collections import Counter
 
@@ -113,6 +142,7 @@ def run(chk, replay=None):
     extra = Counter()
     n_tok = token_compositions(chk, extra) if not replay else 0
     n_real = real_compositions(chk, extra) if not replay else 0
+    n_real += class_cut_sweep(chk, extra) if not replay else 0
     stats.update(extra)
     cov = {
         "evaluations": len(cases) + n_tok + n_real, "distinct": len(keys) + n_tok + n_real,
@@ -120,8 +150,8 @@ def run(chk, replay=None):
         "rule": "(a) token traces with checkpoint/restore operations replayed by the Coq model (exact); (b) token components: every "
                 "composition of n (2..4 quick, 2..6 thorough) with every boundary kind in {second calibrate call, checkpoint+restore} "
                 "against the uninterrupted twin; (c) real built-in samplers (Halton, R-sequence, uniform, best-batch, PSO, CORS, and one "
-                "of RF/XGBoost/GP), real model and losses: sampled compositions x boundary kinds, histories compared bitwise with the "
-                "uninterrupted twin; non-trivial = a restore succeeded / a cut was made",
+                "of RF/XGBoost/GP), real model and losses: sampled compositions x boundary kinds, plus for each of the nine classes X the "
+                "line-up [uniform, X] cut by checkpoint+restore after every batch; histories compared bitwise with the uninterrupted twin; non-trivial = a restore succeeded / a cut was made",
         "samples": cf.sample_cases(cases, obs),
         "traces_validated_against_impl": len(cases) - len(bad), "model_impl_disagreements": len(bad),
         "composition_runs_token": n_tok, "composition_runs_real": n_real,
